@@ -23,6 +23,7 @@ inductive MVal
   | inv (type : Int) (data : Bytes)                   -- `InvItem`
   | tx (t : Tx)
   | block (b : Block)                                 -- a `Block`; header-only when `b.txs = []`
+  | blockBtg (b : BtgBlock)                           -- a Bitcoin Gold `Block`
   | seq (l : List MVal)                               -- tuple or list
   | dict (l : List (List Char × MVal))                -- `alert_info`
 
@@ -377,6 +378,41 @@ def stdTable (c : Coin) : Table := fun ch => (findLetter ch Pycoin.Gen.Messages.
 /-- `register_array_count_parse(parse_satoshi_int)` -/
 def stdCount : Bytes → Except Err (Nat × Bytes) := fun b => liftW (Wire.parseSatoshiInt Option.none b)
 
+/-! ## networks: each has its own streamer (its own table); nothing is shared between them -/
+
+/-- what distinguishes the message codecs of two networks: the transaction class family and the header layout -/
+structure Net where
+  coin : Coin
+  btgHeader : Bool
+  deriving DecidableEq, Repr
+
+def btgBlockImpl (c : Coin) : CodecImpl where
+  ser v := match v with
+    | .blockBtg blk => liftW (BtgBlock.stream blk)
+    | _ => .error .assertionError
+  parse b := match BtgBlock.parse c b with
+    | .error e => .error e
+    | .ok (blk, r) => .ok (.blockBtg blk, r)
+
+def btgHeaderImpl : CodecImpl where
+  ser v := match v with
+    | .blockBtg blk => liftW (BtgBlock.streamHeader blk.hdr)
+    | _ => .error .assertionError
+  parse b := match BtgBlock.parseAsHeader b with
+    | .error e => .error (.wire e)
+    | .ok (h, r) => .ok (.blockBtg ⟨h, []⟩, r)
+
+/-- the codec pairs `standard_parsing_functions(network.block, network.tx)` registers for this network -/
+def codecImplNet (n : Net) (k : Codec) : CodecImpl :=
+  if n.btgHeader then
+    match k with
+    | .block => btgBlockImpl n.coin
+    | .header => btgHeaderImpl
+    | k => codecImpl n.coin k
+  else codecImpl n.coin k
+
+def netTable (n : Net) : Table := fun ch => (findLetter ch Pycoin.Gen.Messages.letters).map (codecImplNet n)
+
 /-! ## post-processors -/
 
 def asBytesList : List MVal → Option (List Bytes)
@@ -397,13 +433,14 @@ def liftMB : MerkleBlock.Err → Err
 /-- `post_unpack_merkleblock(d, f)`: validates the partial merkle tree and adds `tx_hashes` -/
 def postUnpackMerkleblock (d : Kwargs) : Except Err Kwargs :=
   match lookup "total_transactions".toList d, lookup "flags".toList d, lookup "hashes".toList d, lookup "header".toList d with
-  | some (.int total), some (.seq flags), some (.seq hashes), some (.block hdr) =>
-    match asByteVals flags, asBytesList hashes with
-    | some fl, some hs =>
-      match MerkleBlock.verify Pycoin.Hash.dsha256 total.toNat hs fl hdr.hdr.merkleRoot with
+  | some (.int total), some (.seq flags), some (.seq hashes), some hdrv =>
+    match asByteVals flags, asBytesList hashes, (match hdrv with
+        | .block b => some b.hdr.merkleRoot | .blockBtg b => some b.hdr.merkleRoot | _ => Option.none) with
+    | some fl, some hs, some root =>
+      match MerkleBlock.verify Pycoin.Hash.dsha256 total.toNat hs fl root with
       | .error e => .error (liftMB e)
       | .ok acc => .ok (d ++ [("tx_hashes".toList, .seq (acc.map MVal.bytes))])
-    | _, _ => .error .typeError
+    | _, _, _ => .error .typeError
   | _, _, _, _ => .error .keyError
 
 /-- does `except (struct.error, TypeError, ValueError, OverflowError)` catch it? -/
@@ -445,5 +482,49 @@ def parse (c : Coin) (name : List Char) (data : Bytes) : Except Err Kwargs :=
         else if name = "alert".toList then postUnpackAlert (stdTable c) stdCount d
         else .ok d
       else .ok d
+
+/-- `network.message.pack` / `.parse` of an arbitrary network -/
+def packNet (n : Net) (name : List Char) (kwargs : Kwargs) : Except Err Bytes :=
+  match findLayout name Pycoin.Gen.Messages.layouts with
+  | Option.none => .error .keyError
+  | some layout => packLayout (netTable n) Pycoin.Gen.Messages.packCountLetter layout kwargs
+
+def parseNet (n : Net) (name : List Char) (data : Bytes) : Except Err Kwargs :=
+  match findLayout name Pycoin.Gen.Messages.layouts with
+  | Option.none => .error .keyError
+  | some layout =>
+    match parseLayout (netTable n) stdCount layout data with
+    | .error e => .error e
+    | .ok (d, _) =>
+      if Pycoin.Gen.Messages.postUnpacks.contains name then
+        if name = "merkleblock".toList then postUnpackMerkleblock d
+        else if name = "alert".toList then postUnpackAlert (netTable n) stdCount d
+        else .ok d
+      else .ok d
+
+/-! ## a process history: calls on several networks, one after the other -/
+
+inductive Call
+  | pack (n : Net) (name : List Char) (kwargs : Kwargs)
+  | parse (n : Net) (name : List Char) (data : Bytes)
+
+inductive Answer
+  | bytes (r : Except Err Bytes)
+  | dict (r : Except Err Kwargs)
+
+/-- one call, in a process that has done nothing before -/
+def Call.alone : Call → Answer
+  | .pack n name kw => .bytes (packNet n name kw)
+  | .parse n name data => .dict (parseNet n name data)
+
+/-- the process state the message layer keeps between calls: each network's streamer is built once from immutable
+tables and `pack`/`parse` write nothing back, so there is none -/
+abbrev ProcState := Unit
+
+def Call.run (_ : ProcState) (c : Call) : Answer × ProcState := (c.alone, ())
+
+def runHistory : ProcState → List Call → List Answer
+  | _, [] => []
+  | st, c :: cs => (c.run st).1 :: runHistory (c.run st).2 cs
 
 end Pycoin.Msg
